@@ -249,6 +249,11 @@ func (r *runner) doStep(st Step) {
 			r.rec.Log("PeerClose", "ch", ch.Name)
 			ch.PeerClose()
 		}
+	case "connerr": // the connection's Recv fails with an error that is not end-of-stream
+		if ch := r.connOf(st.C); ch != nil && !ch.PeerClosed() {
+			r.rec.Log("ConnFail", "ch", ch.Name)
+			ch.PushErr(nil, vh.ErrInjected, nil)
+		}
 	case "watcherstop":
 		ok := s.Release(func(p *vh.Parked) bool {
 			if p.Site != "srv.stop.lock" || len(p.Args) == 0 {
